@@ -13,7 +13,7 @@ CLAIM = dict(
          'coefficient sequences of length 0..3 over {-1,0,1} (64 000 triples in the thorough tier), (ii) enumerates all 1 600 ordered pairs (and all pairs of '
          'Gaussian-integer polynomials of length <= 2) as cases executed on the real Polynomial<Rat>/<f64>/<Cmplx>, by reference and consuming, and (iii) validates every '
          'recorded call of the real code for all length pairs 0..9 x 0..9 (degree 0..8 and the empty polynomial, either order), rational coefficients, zero polynomials, '
-         'leading zeros, evaluation points |x| <= 2, derivative orders 0..deg+1: each result must be equal as a polynomial to the operator applied to the operands, not '
+         'leading zeros, RUNS of equal coefficients (all equal, a window of 3..5 equal values at every position, blocks), evaluation points |x| <= 2, derivative orders 0..deg+1: each result must be equal as a polynomial to the operator applied to the operands, not '
          'longer than the textbook length, and each value equal exactly. Exact (integers / reduced rationals).',
     note='Decided exactly by TLC. Not demanded (accepted whatever happens): eval/derivative/trim of the empty polynomial, derivative orders above deg+1, derivative_at at '
          'order deg+1, degree() of the empty polynomial; a result may carry fewer leading zeros than the model. Trusted: TLC, Poly.tla (cross-checked by the laws), '
